@@ -75,8 +75,10 @@ class TaskHandler:
     def flush(self):
         """Await completion of all pending tasks."""
         self._open = False
-        if len(self._pending) > 0:
-            for key in dict(self._pending).keys():
-                get = self._pending.get(key)
-                if get is not None:
-                    self._pending[key].result(10)
+        # wait for every task accepted so far. A task that failed has been logged by its callback: its error
+        # is not raised again here, and the remaining tasks are still waited for.
+        for future in list(self._pending.values()):
+            try:
+                future.exception(10)
+            except BaseException:
+                logging.exception("Task did not complete while flushing %s", future)
